@@ -135,6 +135,9 @@ def indexed_pages(d):
         con.close()
 
 
+FORCE = set()      # tails that the next generated history must contain (set by run for the first histories)
+
+
 def gen_history(rng, allow_unclean):
     npages = rng.randint(2, 3)
     init = [[k, rng.randint(1, 3)] for k in range(1, npages + 1)]
@@ -167,16 +170,16 @@ def gen_history(rng, allow_unclean):
             ops.append(["rename", p, nxt]); live.discard(p); live.add(nxt); nxt += 1
         else:
             ops.append(["nextday"])
-    if rng.random() < 0.35 and len(live) >= 2:
+    if (rng.random() < 0.35 or "rows" in FORCE) and len(live) >= 2:
         # the page indexed last loses all its notes (the highest row ids become free), then another page gains notes
         last = max(live)
         ops += [["reindex", None]] + [["delnote", last, 0] for _ in range(4)] + [["reindex", None], ["addnote", min(live)],
                                                                                  ["addnote", min(live)], ["reindex", None]]
-    if rng.random() < 0.4 and 1 in live:
+    if (rng.random() < 0.4 or "twice" in FORCE) and 1 in live:
         # the same note edited on two later days (first stamp inserts the date, the second replaces it)
         j = rng.randint(0, 1)
         ops += [["reindex", None], ["nextday"], ["editnote", 1, j], ["reindex", None], ["nextday"], ["editnote", 1, j]]
-    if allow_unclean and rng.random() < 0.6 and len(live) >= 2:
+    if allow_unclean and (rng.random() < 0.6 or "explicit" in FORCE) and len(live) >= 2:
         # an explicit-path reindex that is NOT followed by a write-back (the edited note was already stamped today):
         # the hash map then holds only the given page, and the plain reindex meets the other pages as "new"
         a = min(live)
@@ -305,7 +308,11 @@ def run(oc, tier, seed):
     for i in range(n + 25):
         if i >= n and not oc.corr_mismatch:
             break
+        # the first histories of every run contain each special tail, whatever the seed
+        FORCE.clear()
+        FORCE.update({0: {"rows"}, 1: {"twice"}, 2: {"explicit"}, 3: {"rows", "twice"}}.get(i, set()))
         ok = run_history(eng, rng, oc, allow_unclean=(i % 3 == 2) and not oc.corr_mismatch)
+        FORCE.clear()
         oc.nontriv(("h", i))
         if any(f[3] is None for f in oc.spec_fail):
             break
